@@ -127,6 +127,8 @@ class QSpec:
     new_cid_len: int = -1         # -1: same length as the server's CID
     new_cid_prefix: str = ""      # "" | "extend" (new CID = old CID + more bytes) | "truncate" (new CID = a proper prefix of the old one)
     client_new_cid_at: int = -1   # same, issued by the client, server switches
+    new_cid_retire: int = 0       # Retire Prior To of the NEW_CONNECTION_ID frames (0, or 1 = "retire the CID you are using now")
+    new_cid_lag: int = 0          # the peer's next k packets were already in flight: they still carry the old CID, the switch happens afterwards
     token: bytes = b""
     varint_policy: object = "min"
     coalesce_1rtt_with_hs: bool = False   # client's first 1-RTT packet shares the datagram of its Handshake Finished
@@ -361,6 +363,7 @@ def build_qconn(spec: QSpec, rng) -> QConn:
     sent_in_phase = {"c": True, "s": True}     # both sides have sent a 1-RTT packet in generation 0 (client: maybe not yet)
     sent_in_phase["c"] = spec.coalesce_1rtt_with_hs
     updates_done = []
+    pending = {"c": None, "s": None}
     for idx, (d, packets) in enumerate(spec.app):
         o = "s" if d == "c" else "c"
         if idx == spec.new_cid_at:
@@ -371,9 +374,9 @@ def build_qconn(spec: QSpec, rng) -> QConn:
                 new = s_scid + rb(rng.randrange(4, 21 - len(s_scid)))
             elif spec.new_cid_prefix == "truncate" and len(s_scid) >= 5:
                 new = s_scid[:rng.randrange(1, len(s_scid) - 3)]
-            emit("s", [mk_short(cur["s"], "s", c_dcid_used_by_server, [("raw",) + qf.new_connection_id(w, 1, 0, new, rb(16))], phase["s"])])
+            emit("s", [mk_short(cur["s"], "s", c_dcid_used_by_server, [("raw",) + qf.new_connection_id(w, 1, spec.new_cid_retire, new, rb(16))], phase["s"])])
             sent_in_phase["s"] = True
-            s_dcid_used_by_client = new
+            pending["c"] = [new, spec.new_cid_lag]
             info["new_server_cid"] = new
         if idx == spec.client_new_cid_at:
             new = rb(len(c_scid) if c_scid else 8)
@@ -381,9 +384,9 @@ def build_qconn(spec: QSpec, rng) -> QConn:
                 new = c_scid + rb(rng.randrange(4, 21 - len(c_scid)))
             elif spec.new_cid_prefix == "truncate" and len(c_scid) >= 5:
                 new = c_scid[:rng.randrange(1, len(c_scid) - 3)]
-            emit("c", [mk_short(cur["c"], "c", s_dcid_used_by_client, [("raw",) + qf.new_connection_id(w, 1, 0, new, rb(16))], phase["c"])])
+            emit("c", [mk_short(cur["c"], "c", s_dcid_used_by_client, [("raw",) + qf.new_connection_id(w, 1, spec.new_cid_retire, new, rb(16))], phase["c"])])
             sent_in_phase["c"] = True
-            c_dcid_used_by_server = new
+            pending["s"] = [new, spec.new_cid_lag]
             info["new_client_cid"] = new
         if idx in spec.key_updates and sent_in_phase["c"] and sent_in_phase["s"]:
             # d initiates (RFC 9001 6.1); the peer's next packet answers in the new phase; a further update needs both to have sent
@@ -394,6 +397,16 @@ def build_qconn(spec: QSpec, rng) -> QConn:
             ref_keys["app"].append({"c": cur["c"].material(), "s": cur["s"].material()})
             updates_done.append((idx, d))
         assert len(packets) == 1, "one short-header packet per datagram"
+        if pending[d]:                  # d was issued a new CID by its peer: packets already in flight keep the old one
+            if pending[d][1] <= 0:
+                if d == "c":
+                    s_dcid_used_by_client = pending[d][0]
+                else:
+                    c_dcid_used_by_server = pending[d][0]
+                pending[d] = None
+            else:
+                pending[d][1] -= 1
+                info["old_cid_after_new"] = info.get("old_cid_after_new", 0) + 1
         dcid = c_dcid_used_by_server if d == "s" else s_dcid_used_by_client
         frames = []
         for fr in packets[0]:
@@ -409,6 +422,7 @@ def build_qconn(spec: QSpec, rng) -> QConn:
         emit(d, [mk_short(cur[d], d, dcid, frames, phase[d])])
         sent_in_phase[d] = True
     info["key_updates_done"] = updates_done
+    info["all_cids"] = [c for c in (info["odcid"], info["c_scid"], info["s_scid"], info.get("retry_scid"), info.get("new_server_cid"), info.get("new_client_cid")) if c]
     expect = [(g.dir, g.stream) for g in dg if g.stream]
     expect_meta = [(g.dir, g.meta) for g in dg if g.meta]
     return QConn(spec, dg, expect, expect_meta, keylog, cr, info, ref_keys)
@@ -515,6 +529,9 @@ def random_qspec(rng, napp=None, avoid=()):
         s.client_new_cid_at = rng.randrange(n)
     if (s.new_cid_at >= 0 or s.client_new_cid_at >= 0) and rng.random() < 0.4:
         s.new_cid_prefix = rng.choice(["extend", "truncate"])
+    if s.new_cid_at >= 0 or s.client_new_cid_at >= 0:
+        s.new_cid_retire = rng.choice([0, 0, 1])
+        s.new_cid_lag = rng.choice([0, 0, 1, 2])
     chlen = 260   # approximate; cuts beyond the end are ignored
     if rng.random() < 0.5:
         k = rng.randrange(1, 6)
